@@ -101,7 +101,7 @@ def jobs(tier, seed, excluded=()):
     from ..trees import edges, templates, mutate
 
     rng = random.Random(seed)
-    progs = list(templates.ALL) + edges.ids()
+    progs = list(templates.ALL) + edges.ids() + ["R%d" % (1000 * seed + j) for j in range(6 if tier == "quick" else 40)]
     fx = fixtures()
     out = []
     allp = progs + fx
